@@ -924,9 +924,11 @@ def get_input_string(
     :return: A derivation tree of the given input.
     """
 
+    input_from_file = False
     if hasattr(args, "input_string") and args.input_string:
         inp = args.input_string
     else:
+        input_from_file = True
         possible_inputs = [
             file
             for file in files
@@ -946,21 +948,36 @@ def get_input_string(
 
         inp = files[possible_inputs[0]]
 
-        # Somehow, spurious newlines appear when reading files...
-        inp = inp[:-1] if inp.endswith("\n") else inp
-
     def solver():
         return ISLaSolver(grammar, constraint)
 
     def graph():
         return gg.GrammarGraph.from_grammar(grammar)
 
-    return (
-        safe(lambda: json.loads(inp))()
-        .map(DerivationTree.from_parse_tree)
-        .map(lambda tree: eassert(tree, graph().tree_is_valid(tree)))
-        .lash(lambda _: safe(lambda: solver().parse(inp, skip_check=True))())
-    )
+    def parse_input(
+        inp_str: str, silent: bool = False
+    ) -> Result[DerivationTree, Exception]:
+        return (
+            safe(lambda: json.loads(inp_str))()
+            .map(DerivationTree.from_parse_tree)
+            .map(lambda tree: eassert(tree, graph().tree_is_valid(tree)))
+            .lash(
+                lambda _: safe(
+                    lambda: solver().parse(inp_str, skip_check=True, silent=silent)
+                )()
+            )
+        )
+
+    maybe_spurious_newline = input_from_file and inp.endswith("\n")
+    result = parse_input(inp, silent=maybe_spurious_newline)
+    if not is_successful(result) and maybe_spurious_newline:
+        # Files often end with a newline that is not part of the input. We only
+        # strip it if the input cannot be parsed as is; otherwise, inputs of
+        # languages requiring a trailing newline (e.g., those written by
+        # `isla solve -d`) were rejected.
+        result = parse_input(inp[:-1])
+
+    return result
 
 
 def create_solve_parser(subparsers, stdout, stderr):
